@@ -5,13 +5,15 @@ All theorems quantify over ALL signatures (any number of parameters, any names, 
 ALL effective argument lists and keyword maps (any length), and – where a Go map is iterated –
 ALL iteration orders.  `Sig.WF` = the signature is one Python accepts (distinct parameter names,
 defaulted positional parameters last); `KwDefsOK` = the function object's `__kwdefaults__` dict is
-the one its `def` describes.
+the one its `def` describes – a hypothesis of the `bind_*` theorems that `kwdefaults_by_name` proves
+for the function object MAKE_FUNCTION builds (so `bind_refines_spec_made` and the end-to-end theorem
+`def_and_call_refines_spec` carry no such hypothesis).
 
 Model functions: `evalCodeBind` (vm/eval.go EvalCode), `vmCallSlice`/`kwTupleToDict`/`vmCallArgs`
 (Vm.Call), `callHelperArgc`/`callHelperPush` (compile.go callHelper), `compileFuncArgc`
 (compileFunc), `goCall` (py/method.go, py/boundmethod.go).
 -/
-import GPy.C04.Proofs
+import GPy.C04.Boundary
 namespace GPy.C04
 
 /-! ### EvalCode's binder refines the binding relation of the language reference -/
@@ -110,13 +112,12 @@ example : ([("k", 1), ("z", 2)] : Dict).Perm [("z", 2), ("k", 1)] := by decide
 
 /-! ### no argument is lost or delivered twice -/
 
-/-- **no_arg_lost_or_duplicated_partial.**  On success: positional argument `i` is in parameter `i`
-when there is such a parameter, otherwise at index `i - #positional parameters` of the `*` tuple,
-which has no other elements; every keyword argument whose name is a parameter is in that parameter,
-every other keyword argument is an item of the `**` dict, which has no other items.
-(Missing for the full multiset equation of DESIGN.md: the count of the *defaults* delivered –
-here only shown implicitly through `bind_refines_spec`: an unfilled slot holds its own default.) -/
-theorem no_arg_lost_or_duplicated_partial (s : Sig) (hs : s.WF) (args : List Val) (kws : Dict)
+/-- **args_delivered_in_place** (first round: `no_arg_lost_or_duplicated_partial`; the multiset
+equation it lacked is `no_arg_lost_or_duplicated` below).  On success: positional argument `i` is in
+parameter `i` when there is such a parameter, otherwise at index `i - #positional parameters` of the
+`*` tuple, which has no other elements; every keyword argument whose name is a parameter is in that
+parameter, every other keyword argument is an item of the `**` dict, which has no other items. -/
+theorem args_delivered_in_place (s : Sig) (hs : s.WF) (args : List Val) (kws : Dict)
     (hk : (kws.map (·.1)).Nodup) (kwdefs : Option Dict) (hkd : KwDefsOK s kwdefs) (f : Frame)
     (h : evalCodeBind s.code args kws s.defaults kwdefs = .ok f) :
     (∀ i (hi : i < args.length), i < s.pos.length → f.fast[i]? = some (some args[i])) ∧
@@ -196,6 +197,27 @@ theorem no_arg_lost_or_duplicated_partial (s : Sig) (hs : s.WF) (args : List Val
     split_ifs at hd
     simp only [Option.some.injEq] at hd; exact hd.symm
 
+/-- **no_arg_lost_or_duplicated.**  On success, ONE multiset equation: the values delivered (all
+parameter slots, the items of the `*` tuple, the values of the `**` dict) are, counted with
+multiplicity, exactly the values passed (positional arguments, keyword argument values) plus the
+defaults of the parameters that received no argument.  No argument is dropped, none is delivered
+twice, and nothing else appears. -/
+theorem no_arg_lost_or_duplicated (s : Sig) (hs : s.WF) (args : List Val) (kws : Dict)
+    (hk : (kws.map (·.1)).Nodup) (kwdefs : Option Dict) (hkd : KwDefsOK s kwdefs) (f : Frame)
+    (h : evalCodeBind s.code args kws s.defaults kwdefs = .ok f) :
+    (f.fast.filterMap id ++ f.vararg.getD [] ++ (f.kwdict.getD []).map (·.2)).Perm
+      (args ++ kws.map (·.2) ++ specUsedDefaults s args kws) := by
+  obtain ⟨b, hb, h1, h2, h3⟩ := bind_success s hs args kws hk kwdefs hkd f h
+  have := multiset_main s hs args kws hk b hb
+  rw [h1, h2, h3]
+  have e : (b.params.map some).filterMap id = b.params := by
+    rw [List.filterMap_map]; exact List.filterMap_some
+  rw [e]; exact this
+
+-- `f(10, 11, 12, k=20, z=21)` on `def f(a, b=51, *s, k, j=61, **d)`: delivered {10,11,20,61,12,21}
+-- = passed {10,11,12} + {20,21} + the one default used {61}
+example : specUsedDefaults exSig [10, 11, 12] [("k", 20), ("z", 21)] = [61] := by decide
+
 /-! ### call-site protocol: what `callHelper` packs is what `Vm.Call` unpacks -/
 
 /-- **call_protocol_roundtrip (operand).**  For all counts below 256 the operand
@@ -232,11 +254,54 @@ theorem make_function_operand_roundtrip (d k n : Nat) (hd : d < 256) (hk : k < 2
     argc &&& 0xff = d ∧ (argc >>> 8) &&& 0xff = k ∧ (argc >>> 16) &&& 0x7fff = n :=
   mf_decode d k n hd hk hn
 
-/-- test (not a theorem about all inputs): the stack `compileFunc` builds for
+/-- **make_function_roundtrip (stack).**  For EVERY signature the compiler accepts (≤ 255
+parameters), every list of annotations, with or without closure, and every stack below: what
+`compileFunc` + `makeClosure` push – the positional defaults, the keyword-only defaults as
+`(name, value)` pairs, the annotation values and the tuple of their names, the closure, code and
+qualified name – is exactly what `_make_function` pops with the operand the compiler emitted: the
+function object gets the positional defaults in order, `__kwdefaults__` built from the pairs BY NAME,
+the annotations dict, the closure flag, and the stack below is left untouched. -/
+theorem make_function_roundtrip (s : Sig) (anns : List (Name × Val)) (clo : Bool) (rest : List Item)
+    (h1 : compileFuncTooMany s = false) (h2 : anns.length < 32767) :
+    makeFunction (compileFuncArgc s anns) clo (rest ++ compileFuncPush s anns clo)
+      = some ({ defaults := s.defaults,
+                kwdefaults := if s.kwDefaultPairs.length > 0 then some (dictFromTop s.kwDefaultPairs []) else none,
+                annotations := if anns.isEmpty then none else some (dictFromTop anns []),
+                closure := clo }, rest) :=
+  makeFunction_roundtrip s anns clo rest h1 h2
+
+/-- **kwdefaults_by_name** – discharges the hypothesis `KwDefsOK` of the bind theorems: in the
+function object MAKE_FUNCTION builds, `__kwdefaults__[k]` is the default of the keyword-only
+parameter named `k` and is absent when that parameter has none (for every signature with distinct
+keyword-only names).  With distinct names the dict is the pushed pairs, top of stack first. -/
+theorem kwdefaults_by_name (s : Sig) (hn : (s.kwonly.map (·.name)).Nodup) (anns : List (Name × Val)) (clo : Bool) :
+    KwDefsOK s (s.func anns clo).kwdefaults ∧
+    dictFromTop s.kwDefaultPairs [] = s.kwDefaultPairs.reverse :=
+  ⟨kwDefsOK_func s hn anns clo, dictFromTop_nodup _ ((kwPairs_sublist s.kwonly).nodup hn)⟩
+
+/-- `bind_refines_spec` without the `KwDefsOK` hypothesis: the binder applied to the function object
+MAKE_FUNCTION really builds from the `def` -/
+theorem bind_refines_spec_made (s : Sig) (hs : s.WF) (anns : List (Name × Val)) (clo : Bool) (args : List Val)
+    (kws : Dict) (hk : (kws.map (·.1)).Nodup) :
+    functionCall s.code (s.func anns clo) args (some kws) =
+      match specBind s args kws with
+      | none => .error .type
+      | some b => .ok { fast := b.params.map some, vararg := b.star, kwdict := b.dstar } :=
+  bind_main s hs args kws hk _ (kwDefsOK_func s (kwonly_nodup s hs) anns clo)
+
+/-- test: the stack `compileFunc` builds for
 `def f(a, b=51, *s, k, j=61, **d)` is unpacked by `_make_function` into the right function object -/
 example :
     makeFunction (compileFuncArgc exSig []) false ([Item.val 7] ++ compileFuncPush exSig [] false)
       = some ({ defaults := [51], kwdefaults := some [("j", 61)], annotations := none, closure := false }, [Item.val 7]) := by
+  decide
+
+-- hypotheses satisfiable, with annotations and a closure
+example : compileFuncTooMany exSig = false ∧
+    makeFunction (compileFuncArgc exSig [("a", 1), ("return", 6)]) true
+        ([Item.val 7] ++ compileFuncPush exSig [("a", 1), ("return", 6)] true)
+      = some ({ defaults := [51], kwdefaults := some [("j", 61)],
+                annotations := some [("return", 6), ("a", 1)], closure := true }, [Item.val 7]) := by
   decide
 
 /-! ### `Vm.Call`'s merge of explicit keywords and `**mapping` -/
@@ -264,41 +329,145 @@ theorem call_keys_distinct_iff (kws d : Dict) :
       (kws.map (·.1)).Nodup ∧ (∀ kv ∈ d, dictHas kws kv.1 = false) ∧ (d.map (·.1)).Nodup :=
   nodup_append_keys kws d
 
+/-- **call_args_refine_spec** – `Vm.Call`'s whole argument assembly in one theorem.  For every
+call expression (any explicit positionals and keywords, `*operand` absent / iterable / not iterable,
+`**operand` absent / dict visited in any order / not a mapping): the `(args, kwargs)` handed to the
+callee are the effective arguments of the language reference – explicit positionals followed by the
+items of `*`, explicit keywords united with the items of `**` – and TypeError is raised exactly when
+the reference defines none (repeated keyword, non-iterable `*`, non-mapping `**`).  `kwargs` is the
+nil map iff the call has neither keywords nor `**`. -/
+theorem call_args_refine_spec (c : CallExpr) :
+    vmCallArgs c.args (c.kws.flatMap (fun kv => [Item.str kv.1, Item.val kv.2])) c.star c.dstar =
+      match specCallArgs c with
+      | none => .error .type
+      | some (a, k) => .ok (a, if c.kws = [] ∧ c.dstar = none then none else some k) :=
+  vmCallArgs_spec c
+
+example : specCallArgs { args := [10], kws := [("k", 20)], star := some (.seq [30]), dstar := some (.dict [("z", 40)]) }
+    = some ([10, 30], [("k", 20), ("z", 40)]) := by decide
+
+/-! ### end to end: a `def` and a call expression -/
+
+/-- **def_and_call_refines_spec.**  For every well-formed signature `s` and every call expression
+`c`: compiling `def f(s)` (pushes + MAKE_FUNCTION operand), building the function object
+(`_make_function`), compiling the call (`callHelper` pushes + operand), `Vm.Call` (stack slicing,
+keyword dict, `**` merge, `*` extension), `Function.M__call__` and `EvalCode`'s binder together
+yield SyntaxError exactly when a compiler limit (255) is exceeded, otherwise exactly the binding the
+language reference defines for the call – every parameter slot, the `*` tuple, the `**` dict – or
+TypeError exactly when it defines none.  No hypothesis about the function object or the stack is
+left: `KwDefsOK`, the operand round trips and the merge are discharged inside. -/
+theorem def_and_call_refines_spec (s : Sig) (hs : s.WF) (c : CallExpr) :
+    defAndCall s c =
+      if compileFuncTooMany s || callHelperTooMany 0 c.args.length c.kws.length then .error .syntax else
+      match specCall s c with
+      | none => .error .type
+      | some b => .ok { fast := b.params.map some, vararg := b.star, kwdict := b.dstar } :=
+  defAndCall_main s hs c
+
+/-- the end-to-end result does not depend on the order in which Go visits the merged keyword map
+(`defAndCall` fixes one order; the interpreter uses a random one): for every order `k'` of the
+effective keywords the binder gives the spec's slots and `*` tuple and the spec's `**` dict as a set,
+or TypeError when the spec has no binding -/
+theorem def_and_call_order_independent (s : Sig) (hs : s.WF) (c : CallExpr) (a : List Val) (k k' : Dict)
+    (hc : specCallArgs c = some (a, k)) (hp : k.Perm k') :
+    match functionCall s.code (s.func [] false) a (some k'), specCall s c with
+    | .ok f, some b => f.fast = b.params.map some ∧ f.vararg = b.star ∧
+        (match f.kwdict, b.dstar with
+         | some d1, some d2 => d2.Perm d1 | none, none => True | _, _ => False)
+    | .error e, none => e = .type
+    | _, _ => False := by
+  have hk := specCallArgs_nodup c a k hc
+  have hk' : (k'.map (·.1)).Nodup := (hp.map _).nodup_iff.mp hk
+  rw [bind_refines_spec_made s hs [] false a k' hk']
+  have hsp : specCall s c = specBind s a k := by simp [specCall, hc]
+  rw [hsp]
+  have := specBind_perm s a hp hk
+  cases h1 : specBind s a k <;> cases h2 : specBind s a k' <;> simp only [h1, h2] at this ⊢
+  obtain ⟨x, y, z⟩ := this
+  refine ⟨by rw [x], y.symm, ?_⟩
+  rename_i b1 b2
+  cases hd1 : b1.dstar <;> cases hd2 : b2.dstar <;> simp only [hd1, hd2] at z ⊢
+  exact z
+
+-- non-vacuity: `def f(a, b=51, *s, k, j=61, **d)` called as `f(10, *[30, 31], k=20, **{'z': 40})`
+example : exSig.WF ∧
+    defAndCall exSig { args := [10], kws := [("k", 20)], star := some (.seq [30, 31]), dstar := some (.dict [("z", 40)]) }
+      = .ok { fast := [some 10, some 30, some 20, some 61], vararg := some [31], kwdict := some [("z", 40)] } :=
+  ⟨by decide, by decide⟩
+
 /-! ### Go callables -/
 
-/-- **native_call_delivery_partial.**  For each of the four Go signatures, reached as a module
-function or through an instance, and every `(args, kwargs)` handed over by `Vm.Call` (`kwargs = none`
-is the nil map): the Go function receives exactly the receiver, positional and keyword arguments
-Python defines, and arity or keyword misuse is a TypeError.  Excluded: a method reached through its
-class (`kfViaClass`, known finding C04-K01). -/
-theorem native_call_delivery_partial (g : GoSig) (r : Route) (args : List Val) (kwargs : Option Dict)
-    (hk : kfViaClass r = false) :
-    goCall g r args kwargs =
-      match specGoCall g r args (kwargs.getD []) with
+/-- **native_call_delivery.**  For each of the four Go signatures, reached as a module function,
+through an instance or through the class (`T.m(o, …)`), for every instance predicate of the class
+and every `(args, kwargs)` handed over by `Vm.Call` (`kwargs = none` is the nil map): the Go function
+receives exactly the receiver, positional and keyword arguments Python defines, and arity or keyword
+misuse – including a missing or wrongly typed receiver of a call through the class – is a TypeError.
+(Full theorem since fix 6784585; before, the route through the class was known finding C04-K01.) -/
+theorem native_call_delivery (g : GoSig) (r : Route) (isInst : Val → Bool) (args : List Val) (kwargs : Option Dict) :
+    goCall g r isInst args kwargs =
+      match specGoCall g r isInst args (kwargs.getD []) with
       | none => .error .type
-      | some d => .ok d := by
-  cases r with
-  | viaClass => simp [kfViaClass] at hk
-  | moduleFn =>
-    cases g <;> cases kwargs with
-    | none => simp [goCall, methodMCall, methodCall, specGoCall] <;> (try split_ifs) <;> simp_all
-    | some kw =>
-      cases kw <;> simp [goCall, methodMCall, methodCallWithKeywords, methodCall, specGoCall] <;> (try split_ifs) <;> simp_all
-  | viaInstance o =>
-    cases g <;> cases kwargs with
-    | none => simp [goCall, boundMethodCall, methodCall, specGoCall] <;> (try split_ifs) <;> simp_all
-    | some kw =>
-      cases kw <;> simp [goCall, boundMethodCall, methodCallWithKeywords, methodCall, specGoCall] <;> (try split_ifs) <;> simp_all
+      | some d => .ok d :=
+  native_call_delivery_main g r isInst args kwargs
 
-example : kfViaClass (.viaInstance 99) = false ∧
-    goCall .argsKw (.viaInstance 99) [10, 11] (some [("k", 20)])
-      = .ok { self := .obj 99, args := [10, 11], kwargs := some [("k", 20)] } := ⟨by decide, by decide⟩
+example :
+    goCall .argsKw (.viaInstance 99) (· == 99) [10, 11] (some [("k", 20)])
+      = .ok { self := .obj 99, args := [10, 11], kwargs := some [("k", 20)] } := by decide
 
-/-- C04-K01: reached through the class, the Go function does not get the first argument as receiver:
-`T.fa(o)` delivers `self = (*Module)(nil)`, `args = (o,)` where Python defines `self = o`, `args = ()` -/
-theorem go_viaClass_witness :
-    goCall .args .viaClass [99] none = .ok { self := .module, args := [99], kwargs := none } ∧
-    specGoCall .args .viaClass [99] [] = some { self := .obj 99, args := [], kwargs := none } :=
-  ⟨by decide, by decide⟩
+/-- through the class the first argument becomes the receiver: `T.fa(o, 10)` delivers `self = o`,
+`args = (10,)`; `T.fa()` and `T.fa(10)` are TypeErrors (was C04-K01: `self = (*Module)(nil)`,
+`args = (o, 10)`, and `list.append(l, 5)` panicked) -/
+theorem go_viaClass_receiver :
+    goCall .args .viaClass (· == 99) [99, 10] none = .ok { self := .obj 99, args := [10], kwargs := none } ∧
+    goCall .args .viaClass (· == 99) [] none = .error .type ∧
+    goCall .args .viaClass (· == 99) [10] none = .error .type ∧
+    goCall .oneArg .viaClass (· == 99) [99, 10] none = .ok { self := .obj 99, args := [10], kwargs := none } ∧
+    goCall .noArgs .viaClass (· == 99) [99] none = .ok { self := .obj 99, args := [], kwargs := none } :=
+  ⟨by decide, by decide, by decide, by decide, by decide⟩
+
+/-! ### the Go-callable boundary down to `ParseTupleAndKeywords` (model of py/args.go imported from C10) -/
+
+/-- **native_parse_delivery.**  A Go callable of the keyword-taking signature, reached by any route,
+which parses what it receives with `py.ParseTupleAndKeywords(args, kwargs, format, kwlist, results…)`
+(model `GPy.C10.parseTupleAndKeywords`): for every Python-level `(args, kwargs)`, format, keyword list
+and number of result variables – the dispatch either raises TypeError exactly when the Python call is
+ill-formed for the route (missing / wrongly typed receiver), or the Go function receives exactly the
+spec's receiver, arguments and keywords, and then the parse fails with TypeError/OverflowError (never
+a panic) or every result variable `i` holds positional argument `i` of the call, else the keyword
+argument named `kwlist[i]` (`argFor`), converted by its format unit and of the Go type the unit
+guarantees; variables with no argument keep their default and are optional. -/
+theorem native_parse_delivery (r : Route) (isInst : Val → Bool) (args : List Val) (kwargs : Option Dict)
+    (format : List Char) (kwlist : Option (List String)) (nresults : Nat) :
+    match goCall .argsKw r isInst args kwargs with
+    | .error e => e = .type ∧ specGoCall .argsKw r isInst args (kwargs.getD []) = none
+    | .ok d =>
+      specGoCall .argsKw r isInst args (kwargs.getD []) = some d ∧
+      match C10.parseTupleAndKeywords (parseCall d format kwlist nresults) with
+      | .error e => e = .type ∨ e = .overflow
+      | .ok rs =>
+        rs.length = nresults ∧
+        ∀ i, i < nresults →
+          match (C10.parseFormat format).ops[i]?, C10.argFor (parseCall d format kwlist nresults) i with
+          | some op, some a => ∃ v, rs[i]? = some (some v) ∧ C10.Guaranteed op v ∧ v = C10.stored op a
+          | some _, none => rs[i]? = some none ∧ (C10.parseFormat format).min ≤ i
+          | none, _ => rs[i]? = some none :=
+  native_parse_main r isInst args kwargs format kwlist nresults
+
+/-- which argument `argFor` is: positional `i` of the delivered tuple, else the keyword `kwlist[i]` -/
+theorem native_parse_slot (d : Delivered) (format : List Char) (kwlist : Option (List String)) (n i : Nat) :
+    C10.argFor (parseCall d format kwlist n) i =
+      match d.args[i]? with
+      | some a => some (tok a)
+      | none => C10.kwArg (parseCall d format kwlist n) i :=
+  parseCall_argFor d format kwlist n i
+
+-- `T.m(o, 10, c=12)` with `ParseTupleAndKeywords(args, kwargs, "O|OO", ["a","b","c"], &a, &b, &c)`:
+-- a = 10, b keeps its default, c = 12
+example :
+    goCall .argsKw .viaClass (· == 99) [99, 10] (some [("c", 12)])
+      = .ok { self := .obj 99, args := [10], kwargs := some [("c", 12)] } ∧
+    C10.parseTupleAndKeywords (parseCall { self := .obj 99, args := [10], kwargs := some [("c", 12)] }
+        ['O', '|', 'O', 'O'] (some ["a", "b", "c"]) 3)
+      = .ok [some (.int 10), none, some (.int 12)] := ⟨by decide, by decide⟩
 
 end GPy.C04
